@@ -54,7 +54,7 @@ func TestFindRepros(t *testing.T) {
 							for ma := 0; ma < 1000; ma += 37 {
 								for mb := 0; mb < 16; mb++ {
 									rq := hreq{Fam: f.name, Base: baseSpec{A: ba, B: ba * 3, C: ba * 5}, Mut: mutSpec{Kind: k, Inner: inner, A: ma, B: mb, C: mb}}
-									if k != "field" && k != "json-value" && k != "json-syntax" && k != "json-empty" && mb > 0 {
+									if k != "field" && k != "json-value" && k != "json-syntax" && k != "json-empty" && k != "bitflip" && mb > 0 {
 										continue
 									}
 									br := probe.buildReq(rq)
@@ -79,7 +79,7 @@ func TestFindRepros(t *testing.T) {
 			}
 			seen[key] = true
 			tried++
-			if tried > 400 {
+			if tried > 1500 {
 				break
 			}
 			c := mutCase{Reqs: []hreq{rq}}
